@@ -90,6 +90,18 @@ def cc(ctx, src, flags=(), lang="c", compiler=None):
         return tools.compile_c(ctx, src, tuple(flags), lang=lang, compiler=compiler)
 
 
+def make_archive(path, members, thin=False):
+    """Like tools.make_archive with a watchdog that tolerates a heavily loaded machine."""
+    from .common import HarnessError
+    for attempt in range(3):
+        if os.path.exists(path):
+            os.unlink(path)
+        r = run([tools.AR, "rcsT" if thin else "rcs", path, *members], timeout=300)
+        if r.ok:
+            return path
+    raise HarnessError(f"ar failed: rc={r.rc} timed_out={r.timed_out} {r.errtext()}")
+
+
 class Recipe:
     """Records how a case's inputs were built so a violation can be replayed with plain commands
     (sources + repro.sh in the replay dir)."""
@@ -111,7 +123,7 @@ class Recipe:
 
     def archive(self, name, members, thin=False):
         path = os.path.join(self.d, name)
-        tools.make_archive(path, members, thin=thin)
+        make_archive(path, members, thin=thin)
         self.names[path] = name
         self.steps.append(f"rm -f {name}; ar {'rcsT' if thin else 'rcs'} {name} " + " ".join(self.sub(members)))
         return path
